@@ -456,6 +456,224 @@ OPS.update({
     "glwe_mul_const_assign": (sh_mul_const_assign, ALL, True, 2),
 })
 
+
+# ------------------------------------------------------------------------------------------------
+# table 4 (Model/ScratchOps3.lean)
+# ------------------------------------------------------------------------------------------------
+def sh_prep(rng, big):
+    # prepared matrix: dsize 1 keeps dnum free
+    r = rng.range(1, 2)
+    d = key_part(rng, big, r, r)
+    d.update({"rank": r, "nlwe": rng.range(1, 4), "natk": rng.range(1, 3), "ksglwe": rng.range(0, 1)})
+    return d
+
+
+def sh_mul_plain(rng, big):
+    ab2k = rng.choice(RADICES)
+    m = 6 if not big else 24
+    d = {"rank": rng.range(0, 2), "size": rng.range(1, m), "b2k": rng.choice(RADICES) if rng.chance(1, 3) else ab2k,
+         "asize": rng.range(1, m), "ab2k": ab2k, "bsize": rng.range(1, m)}
+    d["arank"] = d["rank"]
+    d["ea"] = rng.range(max(1, d["asize"] - 1), d["asize"])
+    d["eb"] = rng.range(max(1, d["bsize"] - 1), d["bsize"])
+    d["off"] = rng.choice([0, ab2k - 1, ab2k, 2 * ab2k + 3, min(d["ea"], d["eb"]) * ab2k, min(d["ea"], d["eb"]) * ab2k + 5])
+    return d
+
+
+def sh_mul_plain_assign(rng, big):
+    d = sh_mul_plain(rng, big)
+    d["b2k"] = d["ab2k"]
+    # res is the left operand: `ea` = limbs of the plaintext, `eb` = effective limbs of res
+    d["eb"] = rng.range(max(1, d["size"] - 1), d["size"])
+    d["ea"] = rng.range(max(1, d["bsize"] - 1), d["bsize"])
+    d["off"] = rng.choice([0, d["b2k"], min(d["ea"], d["eb"]) * d["b2k"]])
+    return d
+
+
+def sh_tensor(rng, big):
+    d = sh_mul_plain(rng, big)
+    d["rank"] = d["arank"] = rng.range(1, 2)
+    return d
+
+
+def sh_tensor_sq(rng, big):
+    d = sh_tensor(rng, big)
+    d["off"] = rng.choice([0, d["ab2k"], d["ea"] * d["ab2k"], d["ea"] * d["ab2k"] + 5])
+    return d
+
+
+def brk_part(rng, d, big):
+    d["bsize"] = rng.range(1, 4 if not big else 12)
+    d["bdnum"] = rng.range(1, d["bsize"])
+    d["bb2k"] = rng.choice(RADICES)
+    d["block"] = rng.choice([1, 2, 3])
+    d["nlwe"] = d["block"] * rng.range(1, 3)
+    d["ext"] = 1
+    return d
+
+
+def sh_blind_rotation(rng, big):
+    d = {"rank": rng.range(1, 2 if not rng.chance(1, 6) else 3), "size": rng.range(1, 4)}
+    brk_part(rng, d, big)
+    d["b2k"] = d["bb2k"]
+    if d["block"] > 1 and rng.chance(1, 3):
+        d["ext"] = 2
+    return d
+
+
+def sh_brk_key(rng, big):
+    d = {"rank": rng.range(1, 2)}
+    brk_part(rng, d, big)
+    d["bsize"] = max(d["bsize"], 2)
+    return d
+
+
+def cbt_part(rng, big):
+    """shapes of a circuit bootstrapping: result GGSW, blind-rotation key, automorphism keys (k), tensor key (t)"""
+    r = rng.range(1, 2)
+    d = {"rank": r}
+    brk_part(rng, d, big)
+    d["bsize"] = max(d["bsize"], 2)
+    d["bdnum"] = rng.range(1, d["bsize"])
+    d.update({"krin": r, "krout": r, "ksize": rng.range(2, 5), "kb2k": rng.choice(RADICES), "dsize": 1})
+    d["dnum"] = rng.range(1, d["ksize"])
+    d.update({"size": rng.range(2, 4), "b2k": rng.choice(RADICES)})
+    d["rdnum"] = rng.range(1, d["size"])
+    d.update({"tsize": rng.range(2, 5), "tb2k": rng.choice(RADICES), "tdsize": 1})
+    d["tdnum"] = rng.range(1, d["tsize"])
+    d["natk"] = 5
+    d["iters"] = 5
+    return d
+
+
+def sh_cbt(rng, big):
+    return cbt_part(rng, big)
+
+
+def sh_bdd_key(rng, big):
+    d = cbt_part(rng, big)
+    d.update({"lksize": rng.range(2, 4), "lkb2k": rng.choice(RADICES)})
+    d["lkdnum"] = rng.range(1, d["lksize"])
+    d["ksglwe"] = rng.range(0, 1)
+    if d["ksglwe"]:
+        d.update({"gkrout": 1, "gksize": rng.range(2, 6), "gkb2k": d["lkb2k"], "gkdsize": 1})
+        d["gkdnum"] = rng.range(1, d["gksize"])
+    return d
+
+
+def sh_fhe_uint_prepare(rng, big):
+    d = sh_bdd_key(rng, big)
+    d.update({"arank": d["rank"], "asize": rng.range(1, 3), "ab2k": rng.choice(RADICES), "threads": rng.range(1, 3),
+              "bitsper": rng.range(1, 2), "idx": 1})
+    return d
+
+
+def sh_bdd_rot(rng, big):
+    d = sh_cmux(rng, big)
+    d.update({"bitmask": rng.range(1, 3), "cells": rng.range(1, 4), "steps": rng.range(1, 4)})
+    return d
+
+
+def sh_bdd_retrieval(rng, big):
+    d = sh_cswap(rng, big)
+    d["asize"] = d["size"]
+    d["steps"] = rng.range(1, 4)
+    return d
+
+
+def sh_bdd_2w(rng, big):
+    d = sh_bdd(rng, big)
+    d["bits"] = 32
+    d.update({"tsize": rng.range(2, 5), "tb2k": d["b2k"], "tdsize": 1})
+    d["tdnum"] = rng.range(1, d["tsize"])
+    d["rounds"] = 5
+    d["iters"] = 5
+    return d
+
+
+def sh_ckks_mul(rng, big):
+    r = rng.range(1, 2)
+    b2k = rng.choice(RADICES)
+    d = {"rank": r, "size": rng.range(2, 6), "b2k": b2k}
+    tsk_part(rng, d)
+    d["tb2k"] = b2k if not rng.chance(1, 4) else d["tb2k"]
+    d["ea"] = rng.range(max(1, d["size"] - 1), d["size"])
+    d["eb"] = rng.range(max(1, d["size"] - 1), d["size"])
+    d["off"] = rng.choice([min(d["ea"], d["eb"]) * b2k, min(d["ea"], d["eb"]) * b2k + 5, (min(d["ea"], d["eb"]) + 1) * b2k])
+    d.update({"cnt": rng.range(1, 5), "levels": 0})
+    d["levels"] = 0 if d["cnt"] <= 2 else (1 if d["cnt"] <= 4 else 2)
+    return d
+
+
+def sh_ckks_mul_pt(rng, big):
+    d = sh_mul_plain(rng, big)
+    d["b2k"] = d["ab2k"]
+    d["rank"] = d["arank"] = 1
+    d["eb"] = d["bsize"]
+    d["off"] = min(d["ea"], d["eb"]) * d["b2k"]
+    return d
+
+
+def sh_ckks_all(rng, big):
+    d = sh_ckks_mul(rng, big)
+    d["bsize"] = rng.range(1, 4)
+    d.update({"krin": d["rank"], "krout": d["rank"], "ksize": rng.range(2, 6), "kb2k": d["b2k"], "dsize": 1})
+    d["dnum"] = rng.range(1, d["ksize"])
+    return d
+
+
+OPS.update({
+    "gglwe_prepare": (sh_prep, ALL, True, 8),
+    "ggsw_prepare": (sh_prep, ALL, True, 8),
+    "glwe_switching_key_prepare": (sh_prep, ALL, True, 8),
+    "glwe_automorphism_key_prepare": (sh_prep, ALL, True, 8),
+    "prepare_tensor_key": (sh_prep, ALL, True, 8),
+    "gglwe_to_ggsw_key_prepare": (sh_prep, ALL, True, 8),
+    "lwe_switching_key_prepare": (sh_prep, ALL, True, 8),
+    "lwe_to_glwe_key_prepare": (sh_prep, ALL, True, 8),
+    "glwe_to_lwe_key_prepare": (sh_prep, ALL, True, 8),
+    "glwe_switching_key_compressed_encrypt_sk": (sh_key(None, None), ALL, True, 2),
+    "glwe_automorphism_key_compressed_encrypt_sk": (sh_key("same", None), ALL, True, 2),
+    "glwe_tensor_key_compressed_encrypt_sk": (sh_key("same", None), ALL, True, 2),
+    "gglwe_to_ggsw_key_compressed_encrypt_sk": (sh_key("same", None), ALL, True, 2),
+    "glwe_mul_plain": (sh_mul_plain, ALL, True, 8),
+    "glwe_mul_plain_assign": (sh_mul_plain_assign, ALL, True, 8),
+    "glwe_tensor_apply": (sh_tensor, ALL, True, 8),
+    "glwe_tensor_apply_add_assign": (sh_tensor, ALL, True, 8),
+    "glwe_tensor_square_apply": (sh_tensor_sq, ALL, True, 8),
+    "blind_rotation_execute": (sh_blind_rotation, ALL, True, 8),
+    "blind_rotation_key_encrypt_sk": (sh_brk_key, ALL, True, 8),
+    "blind_rotation_key_compressed_encrypt_sk": (sh_brk_key, ALL, True, 8),
+    "blind_rotation_key_prepare": (sh_brk_key, ALL, True, 8),
+    "circuit_bootstrapping_execute": (sh_cbt, ALL, True, 32),
+    "circuit_bootstrapping_key_encrypt_sk": (sh_cbt, ALL, True, 32),
+    "circuit_bootstrapping_key_prepare": (sh_cbt, ALL, True, 32),
+    "bdd_key_encrypt_sk": (sh_bdd_key, ALL, True, 32),
+    "prepare_bdd_key": (sh_bdd_key, ALL, True, 32),
+    "fhe_uint_prepare": (sh_fhe_uint_prepare, ALL, True, 32),
+    "glwe_blind_rotation": (sh_bdd_rot, ALL, True, 8),
+    "ggsw_to_ggsw_blind_rotation": (sh_bdd_rot, ALL, True, 8),
+    "scalar_to_ggsw_blind_rotation": (sh_bdd_rot, ALL, True, 8),
+    "glwe_blind_selection": (sh_bdd_rot, ALL, True, 32),
+    "glwe_blind_retrieval": (sh_bdd_retrieval, ALL, True, 8),
+    "retrieve": (sh_bdd_rot, ALL, True, 8),
+    "bdd_2w_to_1w": (sh_bdd_2w, ALL, True, 32),
+    "fhe_uint_encrypt_sk": (sh_glwe, ALL, True, 32),
+    "fhe_uint_decrypt": (sh_glwe, ALL, True, 32),
+    "ckks_mul": (sh_ckks_mul, REF, False, 8),
+    "ckks_square": (sh_ckks_mul, REF, False, 8),
+    "ckks_mul_pt_vec_znx": (sh_ckks_mul_pt, REF, False, 8),
+    "ckks_mul_pt_vec_rnx": (sh_ckks_mul_pt, REF, False, 8),
+    "ckks_composite_ct": (sh_ckks_mul, REF, False, 8),
+    "ckks_composite_pt_vec_znx": (sh_ckks_mul_pt, REF, False, 8),
+    "ckks_composite_pt_vec_rnx": (sh_ckks_mul_pt, REF, False, 8),
+    "ckks_composite_pt_const": (sh_ckks_mul_pt, REF, False, 8),
+    "ckks_mul_many": (sh_ckks_mul, REF, False, 8),
+    "ckks_dot_product_ct": (sh_ckks_mul, REF, False, 8),
+    "ckks_all_ops": (sh_ckks_all, REF, False, 8),
+    "ckks_all_ops_with_atk": (sh_ckks_all, REF, False, 8),
+})
+
 USES_VMP = {o for o in OPS if o.startswith("vmp_") or any(w in o for w in ("keyswitch", "external_product", "automorphism", "trace", "cmux", "bdd", "from_lwe", "from_glwe", "ggsw_from", "expand", "pack", "relinearize", "cswap"))}
 
 
